@@ -152,6 +152,119 @@ def C02(V, tier):
     jobsuite.run_suite(V, wd, progs, matrix, "C02", checks=("link",), perturb_us=300)
 
 
+# ------------------------------------------------------------------------------------------------
+# C19: execution graph
+
+def _norm_dump(d):
+    """Dump of verif_execution_graph -> the record shape of GraphProps.tla."""
+    def coord(c):
+        b, h, r = c.split(".")
+        return int(b), int(h), int(r)
+    blocks = []
+    for b in sorted(d["blocks"], key=lambda x: x["id"]):
+        rep = b["replication"]
+        name, lim = rep, 0
+        if rep.startswith("Limited("):
+            name, lim = "Limited", int(rep[8:-1])
+        reps = []
+        for x in sorted(b["replicas"], key=lambda x: x["coord"]):
+            _, h, r = coord(x["coord"])
+            reps.append({"h": h, "r": r, "gid": x["gid"] if x["gid"] is not None else -1})
+        blocks.append({"id": b["id"], "repl": name, "lim": lim, "fwd": bool(b["only_one"]),
+                       "fwd_repr": b["repr"].rstrip().endswith("-> OnlyOne"),
+                       "next": [{"to": n[0], "fragile": bool(n[1])} for n in b["next"]],
+                       "replicas": reps})
+    links = []
+    for f, t, _fr in d["links"]:
+        fb, fh, fr = coord(f)
+        tb, th, tr = coord(t)
+        links.append({"fb": fb, "fh": fh, "fr": fr, "tb": tb, "th": th, "tr": tr})
+    links.sort(key=lambda k: (k["fb"], k["fh"], k["fr"], k["tb"], k["th"], k["tr"]))
+    addrs = sorted(({"b": a["block"], "h": a["host"], "prev": a["prev"], "addr": a["addr"]}
+                    for a in d["addrs"]), key=lambda a: (a["b"], a["h"], a["prev"]))
+    return {"blocks": blocks, "links": links, "addrs": addrs}
+
+
+def graph_cases(tier, rng):
+    """(program, cluster) pairs: generated programs and replication-focused templates."""
+    import itertools
+    clusters = [[1], [2], [3], [1, 1], [2, 1], [1, 2], [2, 2], [1, 3], [3, 1], [1, 1, 1], [2, 1, 2]]
+    if tier != "quick":
+        clusters += [[4], [3, 3], [2, 3], [1, 2, 3], [3, 2, 1], [1, 1, 1, 1], [2, 2, 2]]
+    repls = ["unlimited", "one", "host", "limited:1", "limited:2", "limited:3", "limited:4"]
+    progs = []
+    # replication templates: src -> shuffle -> replicate(r1) -> map -> shuffle -> replicate(r2) -> sink
+    for r1, r2 in itertools.product(repls, repls):
+        nodes = [{"id": "s", "op": "src", "kind": "par_range", "lo": 0, "hi": 10},
+                 {"id": "a", "op": "shuffle", "in": ["s"]},
+                 {"id": "b", "op": "replicate", "repl": r1, "in": ["a"]},
+                 {"id": "c", "op": "group_by", "m": 3, "in": ["b"]},
+                 {"id": "d", "op": "drop_key", "in": ["c"]},
+                 {"id": "e", "op": "replicate", "repl": r2, "in": ["d"]},
+                 {"id": "k", "op": "sink", "kind": "collect_vec", "in": ["e"]}]
+        progs.append({"nodes": nodes})
+    # multi-output / loops / joins from the program generator
+    n = 25 if tier == "quick" else 150
+    for i in range(n):
+        prog, _ = gen.gen_program(seed() * 31 + i, max_ops=6)
+        progs.append(prog)
+    cases = []
+    for pi, p in enumerate(progs):
+        cl = clusters if pi < len(repls) ** 2 and tier != "quick" else rng.sample(clusters, 3)
+        for ci, cores in enumerate(cl):
+            cfg = {"mode": "remote", "hosts": cores}
+            cases.append({"id": f"g{pi}_{ci}", "prog": p, "cfg": cfg})
+        if pi % 4 == 0:
+            cases.append({"id": f"g{pi}_l", "prog": p, "cfg": {"mode": "local", "par": rng.choice([1, 2, 3, 4])}})
+    return cases
+
+
+def C19(V, tier):
+    from common import run_jobs, split_trace_files, validate_parallel
+    wd = workdir("C19")
+    rng = random.Random(seed())
+    for cfg in (["ExecGraph_quick"] if tier == "quick" else ["ExecGraph_quick", "ExecGraph_thorough"]):
+        r = tlc_check(f"{SPEC}/comp/ExecGraph.tla", f"{SPEC}/mc/{cfg}.cfg", wd, cfg, workers=12,
+                      timeout=1500, coverage=False)
+        if not r["ok"]:
+            raise ToolError(f"model check {cfg}: {r['invariant_violated']} fails on the model")
+        V.add_model(r, cfg)
+    r = tlc_check(f"{SPEC}/comp/ExecGraph.tla", f"{SPEC}/mc/ExecGraph_finding.cfg", wd, "finding",
+                  workers=4, coverage=False)
+    V.coverage["finding_config_still_fails"] = r["invariant_violated"] == "ForwardOK"
+    cases = graph_cases(tier, rng)
+    results, _ = run_jobs(cases, wd, cmd="graph", timeout=600)
+    # vh graph writes results to the "results" path and nothing to the trace path
+    recs = []
+    for c in cases:
+        r = results.get(c["id"])
+        if r is None:
+            raise ToolError(f"no graph result for {c['id']}")
+        if any(d.get("panic") for d in r["dumps"]):
+            V.add_violation({"prop": "C19", "kind": "graph_panic", "job": c["id"],
+                             "panics": r.get("panics", [])[:2]}, replay=c)
+            continue
+        cores = c["cfg"]["hosts"] if c["cfg"]["mode"] == "remote" else [c["cfg"]["par"]]
+        recs.append({"ev": "case", "id": c["id"], "cores": cores,
+                     "dumps": [_norm_dump(d) for d in r["dumps"]]})
+        recs.append({"ev": "done", "id": c["id"]})
+    files = split_trace_files(recs, wd, "graph", max_events=60)
+    viols, consumed, states, _ = validate_parallel("GraphCheck", files, wd)
+    by_id = {c["id"]: c for c in cases}
+    for v in viols:
+        x = v.get("extra", {}).get("v", {})
+        v2 = dict(v)
+        if isinstance(x, dict) and "class" in x:
+            v2["class"] = x["class"]
+        V.add_violation(v2, replay=by_id.get(v.get("job")))
+    V.coverage["states"] += states
+    V.coverage["transitions"] += states
+    V.coverage["traces_validated_against_impl"] += len(recs) // 2
+    V.coverage["graph_dumps_checked"] = sum(len(r["dumps"]) for r in recs if r["ev"] == "case")
+    if recs:
+        V.sample({"case": recs[0]["id"], "cores": recs[0]["cores"], "blocks": recs[0]["dumps"][0]["blocks"][:2]})
+
+
 def replay(pid, path, V):
     with open(path) as f:
         data = json.load(f)
